@@ -1186,6 +1186,12 @@ theorem upper_lower_nonascii_wellformed (s : Bytes) (h : s.all (fun c => c < 128
   have el : Case.goToLower s = Case.goMap Case.toLowerR s := by unfold Case.goToLower; simp only [h]; rfl
   rw [eu, el]; exact ⟨Case.goMap_valid _ _, Case.goMap_valid _ _⟩
 
+/-- **`{upper}` / `{lower}` always answer well-formed UTF-8** – for every byte string, ill-formed ones included
+    (ASCII values stay ASCII; on the other path each ill-formed byte comes out as U+FFFD). -/
+theorem upper_lower_wellformed (s : Bytes) :
+    Rare.C20.ValidUtf8 (Case.goToUpper s) ∧ Rare.C20.ValidUtf8 (Case.goToLower s) :=
+  ⟨Case.goToUpper_valid s, Case.goToLower_valid s⟩
+
 /-- non-vacuity: a value that leaves ASCII-free text for ASCII (`ſıx`), and an ill-formed one (lone 0xFF, 0xC3). -/
 example : Case.goToUpper [0xC5, 0xBF, 0xC4, 0xB1, 0x78] = [0x53, 0x49, 0x58] ∧
     Case.goToUpper [0x53, 0x49, 0x58] = [0x53, 0x49, 0x58] ∧
